@@ -132,15 +132,16 @@ def callee_variants(callee, env):
     if len(callee.body()) > 1:
         neutral.append({"op": "reorder_stmts", "path": first, "args": {}})
     for a in neutral:
-        vs.append({"steps": [a]})
+        vs.append({"steps": [a], "cls": "neutral"})
     for a in single:
-        vs.append({"steps": [a]})
-        vs.append({"steps": [a, neutral[0]]})
-        vs.append({"steps": [neutral[1], _shift(a)]})
+        vs.append({"steps": [a], "cls": "single"})
+    for a in single:
+        vs.append({"steps": [a, neutral[0]], "cls": "multi"})
+        vs.append({"steps": [neutral[1], _shift(a)], "cls": "multi"})
     # two configuration steps
     for a in single[:: max(1, len(single) // 6)]:
         for b in single[1:: max(1, len(single) // 5)]:
-            vs.append({"steps": [a, b]})
+            vs.append({"steps": [a, b], "cls": "multi"})
     return vs
 
 
@@ -400,9 +401,10 @@ def worker(job, out_path=None):
                 sub = op
                 if op == "call_eqv":
                     sub = "call_eqv:" + (att["args"].get("special") or "derived")
-                if quota.get(sub, quota.get(op, 10 ** 9)) <= 0:
+                qk = sub + ":" + att["args"].get("cls", "") if sub == "call_eqv:derived" else sub
+                if quota.get(qk, quota.get(sub, quota.get(op, 10 ** 9))) <= 0:
                     continue
-                quota[sub] = quota.get(sub, quota.get(op, 10 ** 9)) - 1
+                quota[qk] = quota.get(qk, quota.get(sub, quota.get(op, 10 ** 9))) - 1
                 cnt("attempts")
                 cnt("attempts:" + sub)
                 fp = str(p0)
